@@ -148,6 +148,10 @@ var tagSwaps = [][2]string{
 
 func pick(r *rng.R, l []string) string { return l[r.Intn(len(l))] }
 
+// the decoder trims blanks in front of an attribute name
+func isFloatKey(k string) bool { return floatKeys[strings.TrimLeft(k, " ")] }
+func isIntKey(k string) bool   { return intKeys[strings.TrimLeft(k, " ")] }
+
 // mutate applies one mutation; returns the new text and the mutation's name
 func mutate(r *rng.R, text string) (string, string) {
 	lines, finalNL := readLines(text)
@@ -198,9 +202,9 @@ func mutate(r *rng.R, text string) (string, string) {
 	case 5:
 		if s, ok := withAttrs(func(a []kv) string {
 			k := a[r.Intn(len(a))]
-			if floatKeys[k.Key] {
+			if isFloatKey(k.Key) {
 				k.Val = pick(r, floatClass)
-			} else if intKeys[k.Key] {
+			} else if isIntKey(k.Key) {
 				k.Val = pick(r, intClass)
 			} else {
 				k.Val = "other"
@@ -223,16 +227,16 @@ func mutate(r *rng.R, text string) (string, string) {
 		if s, ok := withAttrs(func(a []kv) string {
 			var idx []int
 			for k, x := range a {
-				if floatKeys[x.Key] || intKeys[x.Key] {
+				if isFloatKey(x.Key) || isIntKey(x.Key) {
 					idx = append(idx, k)
 				}
 			}
 			if len(idx) == 0 {
-				a[0].Val = pick(r, intClass)
+				a[0].Val = pick(r, []string{"", "-1", "abc", "7", "1.5", " 1"})
 				return joinAttrs(a)
 			}
 			k := idx[r.Intn(len(idx))]
-			if floatKeys[a[k].Key] {
+			if isFloatKey(a[k].Key) {
 				a[k].Val = pick(r, floatClass)
 			} else {
 				a[k].Val = pick(r, intClass)
@@ -244,7 +248,11 @@ func mutate(r *rng.R, text string) (string, string) {
 		}
 	case 9:
 		if s, ok := withAttrs(func(a []kv) string {
-			a[r.Intn(len(a))].Key = pick(r, allKeys)
+			k := r.Intn(len(a))
+			a[k].Key = pick(r, allKeys)
+			if isFloatKey(a[k].Key) && len(a[k].Val) > 15 && strings.Trim(a[k].Val, "0123456789") == "" {
+				a[k].Val = a[k].Val[:15] // keep float payloads inside the oracle instance's class
+			}
 			return joinAttrs(a)
 		}); ok {
 			return s, "rename-attribute"
